@@ -589,7 +589,19 @@ fn huge_inputs(ctx: &mut Ctx, acc: &mut Acc) {
     }
     let n = (1usize << 32) + 4096;
     // (a) a record header with a negative chunk size (vi(-3) = 5): must be rejected however much input follows
-    for (id, head) in [("(u8, u8)", vec![1u8, 5, 0, 42, 43]), ("TolInnerV1", vec![1u8, 5, 7, 2, b'a', 0, 0, 0, 9])] {
+    // stored version 1 = two header entries: chunk 0 of size -3, then an empty step; the fields would be read from the zero
+    // bytes that follow if the size were taken for 2^32 - 3
+    let mut targets: Vec<String> = vec!["ReusedName".to_string(), "DedupV0".to_string()];
+    targets.extend(
+        ctx.reg
+            .subjects
+            .iter()
+            .filter(|s| matches!(s.ty().resolved(), Ty::Tuple(ts) if ts.iter().all(|t| matches!(t, Ty::U8 | Ty::I8 | Ty::U16 | Ty::I16 | Ty::U32 | Ty::I32 | Ty::U64 | Ty::I64 | Ty::Bool))))
+            .take(3)
+            .map(|s| s.id().to_string()),
+    );
+    for id in targets.iter().map(|s| s.as_str()) {
+        let head = vec![1u8, 5, 0, 42, 43];
         let Some(s) = ctx.reg.get(id) else { continue };
         let Some(mut big) = sbase::zeroed(n) else {
             acc.count("skipped_for_lack_of_address_space");
